@@ -177,6 +177,8 @@ func (b *blockMap) CopySizes(blob []byte) error {
 		newf := &b.File[i]
 		if newf.Name != oldf.Name {
 			return fmt.Errorf("old block map doesn't match new: %s", oldf.Name)
+		} else if len(oldf.Block) > len(newf.Block) {
+			return fmt.Errorf("old block map has too many blocks: %s", oldf.Name)
 		}
 		for j, oldblock := range oldf.Block {
 			newf.Block[j].Size = oldblock.Size
